@@ -57,3 +57,8 @@ Definition model_fixstdin (a : fixstdin_args) : option (N * N) :=
 Definition case_t_fixstdin : Type := (N * fixstdin_args * option (N * N))%type.
 Definition check_fixstdin (a : fixstdin_args) (exp : option (N * N)) : bool :=
   opt_eqb (pair_eqb N.eqb N.eqb) (model_fixstdin a) exp.
+
+(** group stdinflag: which arguments are "-"  |->  [None] = refused (exit 1, nothing linted) *)
+Definition model_stdinflag (a : list bool) : option bool := stdin_flag a.
+Definition case_t_stdinflag : Type := (N * list bool * option bool)%type.
+Definition check_stdinflag (a : list bool) (exp : option bool) : bool := opt_eqb Bool.eqb (model_stdinflag a) exp.
